@@ -21,6 +21,7 @@
 #include <queue>
 #include <sstream>
 #include <stdexcept>
+#include <system_error>
 #include <thread>
 #include <unordered_map>
 #include <unordered_set>
@@ -753,7 +754,22 @@ private:
       // task before it is in _threads, where shutdown()/stop() cannot see and join it.
       if (_threads.size() < _maxSize)
       {
-        spawnWorkerLocked();
+        try
+        {
+          spawnWorkerLocked();
+        }
+        catch (const std::system_error &)
+        {
+          // The thread could not be created (EAGAIN at the thread limit). With at least one
+          // worker the task is accepted all the same and an existing worker runs it. Without
+          // any worker nobody would ever run it: take it back out of the queue and refuse,
+          // instead of failing the call while the task stays queued and runs later.
+          if (_threads.empty())
+          {
+            discardNewestTaskLocked();
+            throw;
+          }
+        }
       }
     } // Release mutex here
 
@@ -789,12 +805,39 @@ private:
       // task before it is in _threads, where shutdown()/stop() cannot see and join it.
       if (_threads.size() < _maxSize)
       {
-        spawnWorkerLocked();
+        try
+        {
+          spawnWorkerLocked();
+        }
+        catch (const std::system_error &)
+        {
+          // The thread could not be created (EAGAIN at the thread limit). With at least one
+          // worker the task is accepted all the same and an existing worker runs it. Without
+          // any worker nobody would ever run it: take it back out of the queue and refuse,
+          // instead of failing the call while the task stays queued and runs later.
+          if (_threads.empty())
+          {
+            discardNewestTaskLocked();
+            return false;
+          }
+        }
       }
     } // Release mutex here
 
     _condition.notify_one();
     return true;
+  }
+
+  /// Removes the task that was queued last (std::queue has no pop_back). The caller holds _mutex.
+  void discardNewestTaskLocked()
+  {
+    std::queue<std::function<void()>> kept;
+    while (_tasks.size() > 1)
+    {
+      kept.push(std::move(_tasks.front()));
+      _tasks.pop();
+    }
+    _tasks.swap(kept);
   }
 
   void spawnWorker()
